@@ -16,6 +16,17 @@ class VItems(V):
         self.pairs = pairs
 
 
+class VKeys(V):
+    """the keys of a dict enumerated in insertion order: array ka[0..n); pairs: iteration yields (key, value)"""
+    kind = 'keys'
+
+    def __init__(self, d, ka, n, pairs):
+        self.d = d
+        self.ka = ka
+        self.n = n
+        self.pairs = pairs
+
+
 class VRange(V):
     kind = 'range'
 
@@ -292,6 +303,8 @@ class StmtMixin:
             return z3.Length(s.t)
         if isinstance(s, VItems):
             return z3.Length(s.ks)
+        if isinstance(s, VKeys):
+            return s.n
         if isinstance(s, VRange):
             return z3.If(s.hi > s.lo, s.hi - s.lo, 0)
         if isinstance(s, VConstList):
@@ -303,6 +316,13 @@ class StmtMixin:
             return self.elem_value(p, s, i)
         if isinstance(s, VRange):
             return VInt(s.lo + i)
+        if isinstance(s, VKeys):
+            k = z3.Select(s.ka, i)
+            if not s.pairs:
+                return VInt(k)
+            v = VRef(z3.Select(harr(p, '$val'), s.d, k))
+            self.wf_value(p, v)
+            return VTuple([VInt(k), v])
         if isinstance(s, VItems):
             k = s.ks[i]
             if not s.pairs:
@@ -584,7 +604,9 @@ class StmtMixin:
         if is_for:
             env['idx'] = p.env['$i%d' % ordn]
             s = p.env['$seq%d' % ordn]
-            if isinstance(s, VItems):
+            if isinstance(s, VKeys):
+                env['keys'] = s
+            elif isinstance(s, VItems):
                 env['keys'] = VList(s.ks, 'int')
             elif isinstance(s, (VBytes, VList)):
                 env['seq_'] = s
